@@ -698,6 +698,64 @@ def r9_asgi_query_codec(run):
                   runtime_witness="GET /?q=caf\\xc3\\xa9 : ASGI req.params == {'q': 'cafÃ©'} while WSGI gives 'café'")
 
 
+def r10_json_length_in_bytes(run):
+    """get_param_as_json hands the handler a byte stream built from the
+    parameter's text together with its length.  The handler contract counts
+    content_length in BYTES: the length argument must be len() of the very
+    bytes object the stream wraps (or None = unknown), never the character
+    count of the text (F17: a handler honouring the argument truncated
+    non-ASCII values)."""
+    p = run.project
+    f = p.func(WSGI_REQ + '.get_param_as_json')
+    run.use(f)
+    binds = {}
+    for a in walk_no_nested(f.node):
+        if isinstance(a, ast.Assign) and len(a.targets) == 1 and isinstance(a.targets[0], ast.Name):
+            binds.setdefault(a.targets[0].id, []).append(a.value)
+
+    def is_encode(e):
+        return isinstance(e, ast.Call) and isinstance(e.func, ast.Attribute) and e.func.attr == 'encode'
+
+    def bytes_src(e):
+        """normalised text of the bytes expression a stream argument wraps"""
+        if isinstance(e, ast.Name) and len(binds.get(e.id, [])) == 1 and is_encode(binds[e.id][0]):
+            return 'name:' + e.id
+        if is_encode(e):
+            return 'expr:' + short(e)
+        return None
+
+    calls = [c for c in walk_no_nested(f.node) if isinstance(c, ast.Call) and isinstance(c.func, ast.Attribute) and c.func.attr == 'deserialize']
+    if not calls:
+        raise AnchorError('get_param_as_json: no handler.deserialize(...) call')
+    for c in calls:
+        args = list(c.args) + [k.value for k in c.keywords]
+        if len(args) != 3:
+            raise UnknownIdiom('get_param_as_json: deserialize called with %d arguments' % len(args))
+        stream, _ct, length = c.args[0] if c.args else None, None, None
+        named = {k.arg: k.value for k in c.keywords}
+        stream = c.args[0] if len(c.args) > 0 else named.get('stream')
+        length = c.args[2] if len(c.args) > 2 else named.get('content_length')
+        if stream is None or length is None:
+            raise UnknownIdiom('get_param_as_json: cannot identify stream/content_length arguments of deserialize')
+        if isinstance(stream, ast.Name) and len(binds.get(stream.id, [])) == 1:
+            stream = binds[stream.id][0]
+        if not (isinstance(stream, ast.Call) and short(stream.func).endswith('BytesIO') and len(stream.args) == 1):
+            raise UnknownIdiom('get_param_as_json: stream argument %s is not BytesIO(<bytes>)' % short(stream))
+        src = bytes_src(stream.args[0])
+        if src is None:
+            raise UnknownIdiom('get_param_as_json: BytesIO wraps %s, not an .encode() result' % short(stream.args[0]))
+        if isinstance(length, ast.Name) and len(binds.get(length.id, [])) == 1:
+            length = binds[length.id][0]
+        ok = False
+        if isinstance(length, ast.Constant) and length.value is None:
+            ok = True
+        elif isinstance(length, ast.Call) and isinstance(length.func, ast.Name) and length.func.id == 'len' and len(length.args) == 1:
+            ok = bytes_src(length.args[0]) == src
+        run.check(ok, 'get_param_as_json passes the byte length of the stream it builds (len of the encoded value, or None) as content_length', f, c,
+                  witness=['stream wraps %s' % src.split(':', 1)[1], 'content_length=%s' % short(length)],
+                  runtime_witness="?p={\"k\": \"\u00e9\u00e9\"} with a JSON handler that reads content_length bytes: the value is cut mid-character -> 500/400 instead of the parsed object")
+
+
 def check(run):
     run.assume('the pure-Python parse_query_string/decode are decided; the Cython twin (falcon/cyutil/uri.pyx) replaces them when importable and is not analysed')
     run.assume('E5 assumptions: str/bytes methods and in-range slices are total; UTF-8 encoding of text without lone surrogates is total; '
@@ -716,5 +774,6 @@ def check(run):
 
     run.rule('R8', _c19.r5_memo_returns_mutable, 'the parsed mapping is a fresh object per call (no memoised function hands out a mutable container; shared with C19 R5)', floor=5)
     run.rule('R9', r9_asgi_query_codec, 'the ASGI constructor decodes the raw query string as UTF-8 before parsing', floor=1)
+    run.rule('R10', r10_json_length_in_bytes, 'get_param_as_json hands the JSON handler the byte length of the stream it builds', floor=1)
     run.rule('R6', _c10._safe(_c10.r2_escape_shape), '_HEX_TO_BYTE covers every hex pair of both cases (shared with C10 R2)', floor=10)
     run.rule('R7', _c10._safe(_c10.r4_decoder_paths), 'decoder paths share one skeleton; plus handling (shared with C10 R4)', floor=20)
